@@ -630,7 +630,7 @@ func c06CheckGeom(model gm.G, cx *h.Ctx) *h.Failure {
 			return h.Failf("geojson/std-marshal-differs", "json.Marshal(g) differs from g.MarshalJSON() for %s", model)
 		}
 	}
-	var gg geom.Geometry
+	gg := dirty(gm.Polygon) // the destination already holds another value
 	if err := json.Unmarshal(out, &gg); err != nil {
 		return h.Failf("geojson/std-unmarshal-error", "json.Unmarshal into Geometry fails for %s: %v", model, err)
 	}
@@ -655,37 +655,37 @@ func c06Concrete(doc []byte, typ string, want gm.G) *h.Failure {
 	}
 	tg := []tgt{
 		{gm.Point, func() (geom.Geometry, error) {
-			var x geom.Point
+			x := dirty("Point").MustAsPoint() // the destination already holds another value
 			err := json.Unmarshal(doc, &x)
 			return x.AsGeometry(), err
 		}},
 		{gm.LineString, func() (geom.Geometry, error) {
-			var x geom.LineString
+			x := dirty("LineString").MustAsLineString() // the destination already holds another value
 			err := json.Unmarshal(doc, &x)
 			return x.AsGeometry(), err
 		}},
 		{gm.Polygon, func() (geom.Geometry, error) {
-			var x geom.Polygon
+			x := dirty("Polygon").MustAsPolygon() // the destination already holds another value
 			err := json.Unmarshal(doc, &x)
 			return x.AsGeometry(), err
 		}},
 		{gm.MultiPoint, func() (geom.Geometry, error) {
-			var x geom.MultiPoint
+			x := dirty("MultiPoint").MustAsMultiPoint() // the destination already holds another value
 			err := json.Unmarshal(doc, &x)
 			return x.AsGeometry(), err
 		}},
 		{gm.MultiLineString, func() (geom.Geometry, error) {
-			var x geom.MultiLineString
+			x := dirty("MultiLineString").MustAsMultiLineString() // the destination already holds another value
 			err := json.Unmarshal(doc, &x)
 			return x.AsGeometry(), err
 		}},
 		{gm.MultiPolygon, func() (geom.Geometry, error) {
-			var x geom.MultiPolygon
+			x := dirty("MultiPolygon").MustAsMultiPolygon() // the destination already holds another value
 			err := json.Unmarshal(doc, &x)
 			return x.AsGeometry(), err
 		}},
 		{gm.GeometryCollection, func() (geom.Geometry, error) {
-			var x geom.GeometryCollection
+			x := dirty("GeometryCollection").MustAsGeometryCollection() // the destination already holds another value
 			err := json.Unmarshal(doc, &x)
 			return x.AsGeometry(), err
 		}},
